@@ -341,7 +341,10 @@ class Machine:
                 orders.append(rng.randrange(extent))
             elif r < 0.75:
                 k = rng.randint(0 if rng.random() < 0.1 else 1, extent) if extent else 0
-                orders.append(rng.sample(range(extent), k))
+                order = rng.sample(range(extent), k)
+                if order and rng.random() < 0.1:
+                    order.insert(rng.randrange(len(order) + 1), rng.choice(order))  # one id named twice
+                orders.append(order)
             else:
                 orders.append(None)
         return {"op": "sliced", "slot": i, "orders": orders, "dst": self._dst(rng)}
@@ -707,6 +710,28 @@ class Machine:
         s = self.slot(op["slot"], mindim=2, maxdim=3)
         orders = op["orders"]
         self.guard(len(orders) == s.a.ndim - 1)
+        if any(isinstance(o, list) and len(set(o)) != len(o) for o in orders):
+            # an order list naming a slice twice: what the result should CONTAIN is not stated anywhere (the pinned
+            # code leaves the repeat empty), so content is not judged - but the result must still be well-formed
+            for o, extent in zip(orders, s.a.shape[1:]):
+                self.guard(o is None or (isinstance(o, int) and 0 <= o < extent) or
+                           (isinstance(o, list) and all(0 <= x < extent for x in o)))
+            snap = model.snapshot(s.idx)
+            try:
+                with warnings.catch_warnings():
+                    warnings.simplefilter("ignore")
+                    out = s.idx.sliced(*[list(o) if isinstance(o, list) else o for o in orders])
+            except Exception:
+                self.stats.count("sliced_with_repeats_raised_not_judged")
+                raise Skip()
+            self.unchanged(s.idx, snap, "sliced")
+            try:
+                dense = model.decode(out)
+            except Malformed as m:
+                self.fail("C07", m.vclass, "sliced(repeated ids)", str(m))
+            self.stats.count("probe_sliced_with_repeated_ids")
+            self.put(op["dst"], out, dense)  # the model ADOPTS the content
+            return
         sel = [slice(None)]
         for order, extent in zip(orders, s.a.shape[1:]):
             if order is None:
